@@ -2200,3 +2200,30 @@ def rule_function_prototype_objects_are_ordinary(ctx, rep, rid: str) -> None:
             rep.ok(rid, key)
         else:
             rep.bad(rid, key, f"the MAKE_CLOSURE handler installs `{v} = JSObject()` as the function's prototype property without giving it a prototype of its own: `function F(){{}}; new F() instanceof Object` is false and Object.getPrototypeOf(F.prototype) is not Object.prototype", f"{df.module.rel}:{mk.lineno}")
+
+
+def rule_functions_have_a_chain(ctx, rep, rid: str) -> None:
+    """Functions are objects: `f instanceof Function`, `f instanceof Object`, and Object.getPrototypeOf(f) is
+    Function.prototype.  The interpreter keeps script functions in a class that is not the object class; an instanceof
+    that answers false for everything outside the object class, or a getPrototypeOf that answers null, cuts functions
+    off from the chain they have."""
+    rep.rule(rid, "the instanceof handler does not dismiss a function operand with the non-object answer (the function class is named where the operand is tested for being an object), and Object.getPrototypeOf has a branch for the function class", floor=2)
+    df, chain = ctx.facts.vm_dispatcher()
+    body = chain.body_of("INSTANCEOF")
+    if body is None:
+        raise AnalysisError(f"{rid}: the dispatcher has no INSTANCEOF branch")
+    key = f"{df.qual}:INSTANCEOF:function-operand"
+    dismiss = [t for s_ in body for t in ast.walk(s_) if isinstance(t, ast.If) and isinstance(t.test, ast.UnaryOp) and isinstance(t.test.op, ast.Not) and isinstance(t.test.operand, ast.Call) and norm(t.test.operand.func) == "isinstance" and any(isinstance(c, ast.Call) and norm(c.func) == "self.stack.append" and c.args and isinstance(c.args[0], ast.Constant) and c.args[0].value is False for b in t.body for c in ast.walk(b))]
+    bad = [t for t in dismiss if "obj" in norm(t.test.operand.args[0]) and "JSFunction" not in norm(t.test.operand.args[1])]
+    if bad:
+        rep.bad(rid, key, f"the INSTANCEOF handler answers false as soon as `{short(bad[0].test, 50)}`: a function is not of the object class here, so `(function(){{}}) instanceof Function` and `instanceof Object` are false", f"{df.module.rel}:{bad[0].lineno}")
+    else:
+        rep.ok(rid, key)
+    gp = next((f for i, (f, js, how) in ctx.cg.natives.items() if js == "getPrototypeOf" and not isinstance(f.node, ast.Lambda)), None)
+    if gp is None:
+        raise AnalysisError(f"{rid}: native getPrototypeOf not found")
+    key = f"{gp.qual}:function-operand"
+    if any(isinstance(c, ast.Call) and norm(c.func) == "isinstance" and len(c.args) == 2 and "JSFunction" in norm(c.args[1]) for c in gp.own_nodes()):
+        rep.ok(rid, key)
+    else:
+        rep.bad(rid, key, f"{gp.qual} has no branch for a function argument: Object.getPrototypeOf(function(){{}}) is null instead of Function.prototype", gp.loc)
